@@ -9,6 +9,7 @@ import (
 
 	"github.com/cloudwego/gopkg/unsafex"
 
+	"verif/arena"
 	"verif/mc"
 )
 
@@ -22,7 +23,27 @@ type c20Case struct {
 	N    int    `json:"n"`    // backing length
 	I    int    `json:"i"`
 	J    int    `json:"j"`
-	K    int    `json:"k"` // cap bound (b2s only)
+	K    int    `json:"k"`                // cap bound (b2s only)
+	Mem  string `json:"memory,omitempty"` // where the backing bytes live: "" Go heap | "mmap" (outside the Go heap: an anonymous mapping, like shared memory or cgo buffers) | "global" (a package-level array)
+}
+
+var c20Arena *arena.Arena
+var c20Global [64]byte
+
+// c20Backing returns n content bytes located in the requested kind of memory.
+func c20Backing(n int, mem string) []byte {
+	src := c20Content(n)
+	switch mem {
+	case "mmap":
+		if c20Arena == nil {
+			c20Arena = arena.New(20)
+		}
+		return c20Arena.AtStart(src, 0, 0)[:n:n]
+	case "global":
+		copy(c20Global[:], src)
+		return c20Global[:n:n]
+	}
+	return src
 }
 
 func c20Content(n int) []byte {
@@ -54,7 +75,7 @@ func c20Run(c *mc.Ctx, k c20Case) {
 				bad("len", "StringToBinary(\"\") has len %d cap %d", len(b), cap(b))
 			}
 		case "b2s":
-			back := c20Content(k.N)
+			back := c20Backing(k.N, k.Mem)
 			want := string(back[k.I:k.J])
 			b := back[k.I:k.J:k.K]
 			s := unsafex.BinaryToString(b)
@@ -66,7 +87,7 @@ func c20Run(c *mc.Ctx, k c20Case) {
 				bad("content", "content %q, want %q", s, want)
 			}
 			if len(b) > 0 {
-				c.Distinct("b2s", k.N, k.I, k.J, k.K)
+				c.Distinct("b2s", k.N, k.I, k.J, k.K, k.Mem)
 				if unsafe.StringData(s) != &b[0] {
 					bad("copy", "result does not share memory with its argument")
 					return
@@ -80,6 +101,11 @@ func c20Run(c *mc.Ctx, k c20Case) {
 		case "s2b":
 			back := c20Content(k.N)
 			parent := string(back) // heap-backed (not in rodata), so a stray write cannot fault
+			if k.Mem != "" {
+				if m := c20Backing(k.N, k.Mem); len(m) > 0 {
+					parent = unsafe.String(&m[0], len(m))
+				}
+			}
 			s := parent[k.I:k.J]
 			b := unsafex.StringToBinary(s)
 			if len(b) != len(s) {
@@ -94,7 +120,7 @@ func c20Run(c *mc.Ctx, k c20Case) {
 				bad("content", "content %q, want %q", b, back[k.I:k.J])
 			}
 			if len(s) > 0 {
-				c.Distinct("s2b", k.N, k.I, k.J)
+				c.Distinct("s2b", k.N, k.I, k.J, k.Mem)
 				if &b[0] != unsafe.StringData(s) {
 					bad("copy", "result does not share memory with its argument")
 				}
@@ -238,6 +264,19 @@ func c20Enumerate(c *mc.Ctx) {
 			}
 		}
 	}
+	// memory that is not on the Go heap: an anonymous mapping and a package-level array
+	for _, mem := range []string{"mmap", "global"} {
+		for _, n := range []int{1, 9, 64, 4096, 65536} {
+			if mem == "global" && n > 64 {
+				continue
+			}
+			for _, ij := range [][2]int{{0, n}, {0, 1}, {n / 2, n}, {n - 1, n}} {
+				c20Run(c, c20Case{Kind: "b2s", N: n, I: ij[0], J: ij[1], K: ij[1], Mem: mem})
+				c20Run(c, c20Case{Kind: "b2s", N: n, I: ij[0], J: ij[1], K: n, Mem: mem})
+				c20Run(c, c20Case{Kind: "s2b", N: n, I: ij[0], J: ij[1], Mem: mem})
+			}
+		}
+	}
 	c20Run(c, c20Case{Kind: "nil-b2s"})
 	c20Run(c, c20Case{Kind: "empty-s2b"})
 	c.Sample("b2s", c20Case{Kind: "b2s", N: 9, I: 2, J: 5, K: 7})
@@ -258,7 +297,7 @@ func c20Enumerate(c *mc.Ctx) {
 func init() {
 	Register(&Check{
 		ID: "C20", Level: "exploration", Shards: 1,
-		Rule:        "every sub-slice b[i:j:k] of backing arrays of length 0..9 (all amounts of spare capacity, empty non-nil, nil) and every substring s[i:j] of heap-backed strings of length 0..9, content with NUL and non-UTF-8 bytes; sub-slices of 8 KiB / 64 KiB arrays around len = cap/64; slices of callee-local buffers of every length 0..24 (result must survive the callee's frame); lengths 2^32 and 2^32+5; both build variants of package unsafex; a case is non-trivial when the value is non-empty (pointer identity is then checked)",
+		Rule:        "every sub-slice b[i:j:k] of backing arrays of length 0..9 (all amounts of spare capacity, empty non-nil, nil) and every substring s[i:j] of heap-backed strings of length 0..9, content with NUL and non-UTF-8 bytes; sub-slices of 8 KiB / 64 KiB arrays around len = cap/64; slices of callee-local buffers of every length 0..24 (result must survive the callee's frame); lengths 2^32 and 2^32+5; arguments in memory outside the Go heap (an anonymous mapping, a package-level array); both build variants of package unsafex; a case is non-trivial when the value is non-empty (pointer identity is then checked)",
 		Assumptions: []string{"the pre-go1.21 variant is compiled with the installed toolchain through the overlay (its build constraint stripped); older toolchains are not installed"},
 		Run:         c20Enumerate,
 		Replay: func(c *mc.Ctx, sub string, raw json.RawMessage) {
